@@ -371,7 +371,8 @@ class Ref:
 # static analyses on the tuple AST
 
 
-STACK_MAY_HOLD_EMPTY = [False]  # set by generators that push matches of nullable expressions
+STACK_MAY_HOLD_EMPTY = [False]
+  # set by generators that push matches of nullable expressions
 
 
 def nullable(e, null_of_rule) -> bool:
@@ -392,7 +393,9 @@ def nullable(e, null_of_rule) -> bool:
         return all(nullable(x, null_of_rule) for x in e[1])
     if k == "alt":
         return any(nullable(x, null_of_rule) for x in e[1])
-    if k in ("plus", "push", "exact", "group"):
+    if k == "exact":
+        return e[2] == 0 or nullable(e[1], null_of_rule)
+    if k in ("plus", "push", "group"):
         return nullable(e[1], null_of_rule)
     if k == "tag":
         return nullable(e[2], null_of_rule)
